@@ -92,6 +92,11 @@ def check(model: Model, run: Run) -> None:
         if isinstance(lp, ast.For) and norm(lp.iter) == 'self.neighbors.items()' and isinstance(lp.target, ast.Tuple) and len(lp.target.elts) == 2:
             k_, v_ = (dotted(e) for e in lp.target.elts)
             linked = linked or any(True for _ in afind('V_v.previous = self._previous_neighbors[V_k]', lp, {'V_k': k_, 'V_v': v_}))
+            # ... or through a local:  replaced = self._previous_neighbors.get(name);  if replaced is not None: neighbor.previous = replaced
+            cml = Loc(model, cm)
+            for a_ in walk_no_nested(lp):
+                if isinstance(a_, ast.Assign) and norm(a_.targets[0]) == '%s.previous' % v_ and cml.expand(a_.value) in ('self._previous_neighbors.get(%s)' % k_, 'self._previous_neighbors[%s]' % k_):
+                    linked = True
     run.check('self.neighbors = self.neighbor.neighbors' in t and linked, cm.qualname, 'installs the parsed neighbors and links each to its previous version', cm.loc(), 'the route delta is computed against neighbor.previous')
     # reload(): the catch-alls turn an exception into a False result
     arms = [h for n in walk_no_nested(rel.node) if isinstance(n, ast.Try) for h in n.handlers]
@@ -115,6 +120,8 @@ def check(model: Model, run: Run) -> None:
                 g = [(norm(t_), p) for t_, p in flat_guards(rl.node, n.ast)]
                 if v is True:
                     continue
+                if isinstance(n.ast.value, ast.BoolOp) and isinstance(n.ast.value.op, ast.Or) and folder.fold(n.ast.value.values[-1], mod) is True:
+                    continue  # `return self.validate() or True`: never a falsy answer
                 if isinstance(n.ast.value, ast.Name) and (n.ast.value.id, True) in g:
                     continue  # `if check: return check`
                 falsy.append(n.ast)
@@ -149,7 +156,7 @@ def check(model: Model, run: Run) -> None:
                 'has the same index, is popped from the previous set and never re-announced (Neighbor.__eq__ ignores routes, so an '
                 'unchanged neighbor with changed route attributes goes through this function)',
             )
-        force = [folder.fold(c.args[1], rr.module) if len(c.args) > 1 else None for c in adds]
+        force = [folder.fold(c.args[1], rr.module) if len(c.args) > 1 else next((folder.fold(k.value, rr.module) for k in c.keywords if k.arg == 'force'), None) for c in adds]
         run.check(all(f is True for f in force), rr.qualname, 'new / changed routes are queued with force=True', rr.loc(adds[0]), 'the dedup cache must not swallow the re-announcement')
         gd = [(norm(t_), p) for t_, p in flat_guards(rr.node, dels[0])]
         run.check(gd in ([('self.enabled', True)], []), rr.qualname, 'routes gone from the configuration are withdrawn unconditionally (guards: %s)' % gd, rr.loc(dels[0]), 'a removed route must be withdrawn whatever the cache says (with adj-rib-out disabled in_cache() is always false)')
